@@ -5,8 +5,12 @@ import (
 	"encoding/hex"
 	"fmt"
 	"io"
+	"math/bits"
+	"sort"
 	"strconv"
 	"strings"
+
+	"github.com/aead/siphash"
 
 	"github.com/btcsuite/btcd/btcutil/v2/gcs"
 	"github.com/btcsuite/btcd/btcutil/v2/gcs/builder"
@@ -310,7 +314,12 @@ func genGcs(g *core.Gen) {
 		g.Case("rd", len(d) > 0, fmt.Sprintf("C20 rd %d %s %d", p, hexTok(d), r.Intn(50)))
 	}
 	genGcsFilters(g)
+	if moreGcs != nil {
+		moreGcs(g)
+	}
 }
+
+var moreGcs func(*core.Gen)
 
 func keyTok(r *core.Rand) string {
 	switch r.Intn(4) {
@@ -384,5 +393,262 @@ func genGcsFilters(g *core.Gen) {
 			}
 		}
 		g.Case("gcs", n > 0 && nq > 0, fmt.Sprintf("C20 gcs %d %d %s %s %s", p, m, keyTok(r), itemsTok(items), itemsTok(qs)))
+	}
+}
+
+// ---- harness-side reference pieces used ONLY to construct interesting inputs (never to judge)
+
+func refReduce(key [16]byte, item []byte, nm uint64) uint64 {
+	hi, _ := bits.Mul64(siphash.Sum64(item, &key), nm)
+	return hi
+}
+
+type bitw struct {
+	b []byte
+	n int
+}
+
+func (w *bitw) put(bit bool) {
+	if w.n%8 == 0 {
+		w.b = append(w.b, 0)
+	}
+	if bit {
+		w.b[len(w.b)-1] |= 1 << uint(7-w.n%8)
+	}
+	w.n++
+}
+
+// golomb writes the deltas with parameter p, MSB first.
+func golomb(p int, deltas []uint64) []byte {
+	w := &bitw{}
+	for _, d := range deltas {
+		for q := d >> uint(p); q > 0; q-- {
+			w.put(true)
+		}
+		w.put(false)
+		for i := p - 1; i >= 0; i-- {
+			w.put(d>>uint(i)&1 == 1)
+		}
+	}
+	return w.b
+}
+
+func init() { moreGcs = genGcsMore }
+
+func genGcsMore(g *core.Gen) {
+	r := g.R
+	// --- 32-bit collisions: N*M > 2^32 and a query whose reduced hash equals an element's modulo 2^32
+	// but not in full (the shape of F-C20-a); found by computing reduced hashes directly.
+	for i := 0; i < g.N(3, 40); i++ {
+		n := 6000 + r.Intn(3000)
+		var key [16]byte
+		copy(key[:], r.Bytes(16))
+		mult, add := r.U64()|1, r.U64()
+		nm := uint64(n) * 784931
+		low := make(map[uint32]uint64, n)
+		for j := 0; j < n; j++ {
+			var b [8]byte
+			binary.LittleEndian.PutUint64(b[:], uint64(j)*mult+add)
+			v := refReduce(key, b[:], nm)
+			low[uint32(v)] = v
+		}
+		var qs [][]byte
+		for try := 0; try < 3000000 && len(qs) < 2; try++ {
+			q := make([]byte, 9)
+			binary.LittleEndian.PutUint64(q, r.U64())
+			q[8] = 0xfe
+			v := refReduce(key, q, nm)
+			if full, ok := low[uint32(v)]; ok && full != v {
+				qs = append(qs, q)
+			}
+		}
+		qs = append(qs, r.Bytes(5))
+		g.Case("gcs-collide32", len(qs) > 1, fmt.Sprintf("C20 gcs 19 784931 %s *%dx%d+%d %s",
+			hex.EncodeToString(key[:]), n, mult, add, itemsTok(qs)))
+	}
+	// --- large sets
+	for _, n := range []int{1000, 5000, 20000} {
+		if n > 5000 && !g.Thorough() && r.Chance(1, 2) {
+			continue
+		}
+		p, m := 19, uint64(784931)
+		if r.Chance(1, 3) {
+			p = 1 + r.Intn(32)
+			m = uint64(1)<<uint(p) + uint64(r.Intn(1<<uint(p%16)))
+		}
+		mult, add := r.U64()|1, r.U64()
+		var qs [][]byte
+		for j := 0; j < 6; j++ {
+			var b [8]byte
+			binary.LittleEndian.PutUint64(b[:], uint64(r.Intn(2*n))*mult+add)
+			qs = append(qs, append([]byte{}, b[:]...))
+		}
+		g.Case("gcs-large", true, fmt.Sprintf("C20 gcs %d %d %s *%dx%d+%d %s", p, m, keyTok(r), n, mult, add, itemsTok(qs)))
+	}
+	// --- N*M around 2^32 (small quotients need P near 32)
+	for i := 0; i < g.N(60, 3000); i++ {
+		n := 1 + r.Intn(60)
+		target := uint64(1)<<32 + uint64(r.Range(-3, 3))*uint64(n)
+		m := target / uint64(n)
+		p := 26 + r.Intn(7)
+		items := randItems(r, n, 12)
+		nq := r.Intn(2*n + 2)
+		qs := make([][]byte, nq)
+		for j := range qs {
+			if r.Chance(1, 3) {
+				qs[j] = items[r.Intn(n)]
+			} else {
+				qs[j] = r.Bytes(r.Intn(12))
+			}
+		}
+		g.Case("gcs-nm32", nq > 0, fmt.Sprintf("C20 gcs %d %d %s %s %s", p, m, keyTok(r), itemsTok(items), itemsTok(qs)))
+	}
+	// --- deserialised filters: well-formed streams with a lying N, truncations, extensions, garbage
+	for i := 0; i < g.N(700, 30000); i++ {
+		p := r.Intn(33)
+		if r.Chance(1, 12) {
+			p = 33 + r.Intn(223)
+		}
+		var key [16]byte
+		copy(key[:], r.Bytes(16))
+		nItems := r.Intn(25)
+		m := uint64(r.Pick(784931, 1<<20, 1, 3, 1<<32)) >> uint(r.Intn(3))
+		if pp := p; pp <= 32 && m>>uint(pp) > 64 {
+			m = uint64(1)<<uint(pp) + 1
+		}
+		items := randItems(r, nItems, 10)
+		nm := uint64(nItems) * m
+		vals := make([]uint64, nItems)
+		for j, it := range items {
+			vals[j] = refReduce(key, it, nm)
+		}
+		sort.Slice(vals, func(a, b int) bool { return vals[a] < vals[b] })
+		deltas := make([]uint64, nItems)
+		last := uint64(0)
+		for j, v := range vals {
+			deltas[j] = v - last
+			last = v
+		}
+		pe := p
+		if pe > 32 {
+			pe = 19
+		}
+		data := golomb(pe, deltas)
+		n := uint64(nItems)
+		switch r.Intn(8) {
+		case 0: // N lies low / high (nm then differs from the builder's too)
+			n = uint64(r.Intn(nItems + 3))
+		case 1:
+			n = uint64(nItems + 1 + r.Intn(5))
+		case 2: // truncate
+			if len(data) > 0 {
+				data = data[:r.Intn(len(data))]
+			}
+		case 3: // extend with garbage / zeros / ones
+			ext := r.Bytes(1 + r.Intn(6))
+			if r.Bool() {
+				for k := range ext {
+					ext[k] = byte(r.Pick(0, 0xff))
+				}
+			}
+			data = append(data, ext...)
+		case 4: // flip a bit
+			if len(data) > 0 {
+				data[r.Intn(len(data))] ^= 1 << uint(r.Intn(8))
+			}
+		case 5: // pure garbage
+			data = r.Bytes(r.Intn(30))
+		}
+		// keep M consistent with the N the filter will use when N is honest
+		nq := r.Intn(8)
+		if r.Chance(1, 4) { // enough queries to select the hash strategy in MatchAny
+			nq = int(n)/2 + r.Intn(4)
+			if nq > 40 {
+				nq = 40
+			}
+		}
+		qs := make([][]byte, nq)
+		for j := range qs {
+			if nItems > 0 && r.Chance(1, 2) {
+				qs[j] = items[r.Intn(nItems)]
+			} else {
+				qs[j] = r.Bytes(r.Intn(10))
+			}
+		}
+		if r.Bool() {
+			g.Case("from", len(data) > 0, fmt.Sprintf("C20 from %d %d %s %d %s %s", p, m, hex.EncodeToString(key[:]), n, hexTok(data), itemsTok(qs)))
+		} else {
+			var pre []byte
+			switch r.Intn(10) {
+			case 0: // non-canonical / big varints
+				pre = [][]byte{{0xfd, 0x01, 0x00}, {0xfe, 0x01, 0x00, 0x00, 0x00}, {0xff, 1, 0, 0, 0, 0, 0, 0, 0},
+					{0xff, 0, 0, 0, 0, 1, 0, 0, 0}, {0xfe, 0x00, 0x00, 0x01, 0x00}, {0xfd}, {0xfe, 1, 2}, {0xff, 1, 2, 3}, {}}[r.Intn(9)]
+				if l := len(pre); !(l > 0 && ((pre[0] == 0xfd && l == 3) || (pre[0] == 0xfe && l == 5) || (pre[0] == 0xff && l == 9))) {
+					// incomplete prefix: nothing may follow, or the following bytes would be read as a
+					// huge N (HashMatchAny pre-sizes its map by N: gigabytes for N near 2^32)
+					data = nil
+				}
+			case 1:
+				pre = []byte{0xfd, byte(n), byte(n >> 8)}
+				if n < 0xfd {
+					pre = []byte{0xfd, 0xfd + byte(r.Intn(3)), 0}
+				}
+			default:
+				pre = []byte{byte(n)} // n < 0xfd here
+			}
+			g.Case("fromn", len(data) > 0, fmt.Sprintf("C20 fromn %d %d %s %s %s", p, m, hex.EncodeToString(key[:]),
+				hexTok(append(pre, data...)), itemsTok(qs)))
+		}
+	}
+	// --- BIP158 basic filters over synthetic blocks
+	for i := 0; i < g.N(250, 8000); i++ {
+		hdr := r.Bytes(80)
+		ntx := 1 + r.Intn(6)
+		if r.Chance(1, 10) {
+			ntx = 20 + r.Intn(60)
+		}
+		var pool [][]byte // scripts to repeat
+		script := func() []byte {
+			switch r.Intn(9) {
+			case 0:
+				return []byte{}
+			case 1:
+				return append([]byte{0x6a}, r.Bytes(r.Intn(20))...)
+			case 2:
+				return []byte{0x6a}
+			case 3:
+				if len(pool) > 0 {
+					return pool[r.Intn(len(pool))]
+				}
+			case 4:
+				return append([]byte{byte(r.Pick(0x69, 0x6b, 0x00, 0x51))}, r.Bytes(r.Intn(5))...)
+			}
+			s := r.Bytes(1 + r.Intn(34))
+			pool = append(pool, s)
+			return s
+		}
+		txs := make([]string, ntx)
+		for t := range txs {
+			no := r.Intn(4)
+			if r.Chance(1, 8) {
+				no = 0
+			}
+			outs := make([][]byte, no)
+			for k := range outs {
+				outs[k] = script()
+			}
+			txs[t] = itemsTok(outs)
+		}
+		np := r.Intn(6)
+		prevs := make([][]byte, np)
+		for k := range prevs {
+			prevs[k] = script()
+		}
+		prevHdr := r.Bytes(32)
+		if r.Chance(1, 5) {
+			prevHdr = make([]byte, 32)
+		}
+		g.Case("basic", true, fmt.Sprintf("C20 basic %s %s %s %s", hex.EncodeToString(hdr), strings.Join(txs, ";"),
+			itemsTok(prevs), hex.EncodeToString(prevHdr)))
 	}
 }
